@@ -254,8 +254,51 @@ func filterModelled(as []Ann) []Ann {
 // the real except-run is made as well and compared (rules are independent of each other, so
 // the two must agree; a difference is reported in Mismatch).
 func EvalPair(rn *Runner, cur, prev *Compiled, checkExcept bool) *PairEval {
+	return evalPairVersions(rn, cur, prev, checkExcept, nil)
+}
+
+// EvalPairOneReal is the economy form of EvalPair for oracle-only pairs (no protocol line,
+// In == ""): the four categories are REAL single-category runs under buf.yaml version `real`;
+// for each of the other two versions ONE real run with all four categories configured is made and
+// split into the per-category sets by the category lists of that version's rule spec (a rule
+// reports independently of the other configured rules - what EvalPair's except-check and the C03
+// harness, which makes all 12 runs on the same pairs, keep testing).  Derived lists which keys
+// of Sets were obtained by splitting.
+func EvalPairOneReal(rn *Runner, cur, prev *Compiled, real string) (*PairEval, map[string]bool) {
+	pe := evalPairVersions(rn, cur, prev, false, map[string]bool{real: true})
+	derived := map[string]bool{}
+	if pe.Err != nil {
+		return pe, derived
+	}
+	for _, v := range Versions {
+		if v.Name == real {
+			continue
+		}
+		anns, err := rn.Run(v.V, Categories, nil, cur, prev, pe.Idx)
+		if err != nil {
+			pe.Err, pe.ErrAt = err, setKey(v.Name, "ALL")
+			return pe, derived
+		}
+		for _, cat := range Categories {
+			var as []Ann
+			for _, a := range anns {
+				if ActiveIn(v.Name, a.Rule, cat) {
+					as = append(as, a)
+				}
+			}
+			pe.Sets[setKey(v.Name, cat)] = as
+			derived[setKey(v.Name, cat)] = true
+			pe.Total += len(as)
+		}
+	}
+	return pe, derived
+}
+
+func evalPairVersions(rn *Runner, cur, prev *Compiled, checkExcept bool, only map[string]bool) *PairEval {
 	pe := &PairEval{Sets: map[string][]Ann{}}
-	pe.In = PairOp() + "\t" + cur.Encode() + "\t" + prev.Encode()
+	if only == nil {
+		pe.In = PairOp() + "\t" + cur.Encode() + "\t" + prev.Encode()
+	}
 	idx, err := rn.Paths(cur, prev)
 	if err != nil {
 		pe.Err, pe.ErrAt = err, "paths"
@@ -264,6 +307,9 @@ func EvalPair(rn *Runner, cur, prev *Compiled, checkExcept bool) *PairEval {
 	pe.Idx = idx
 	var parts []string
 	for _, v := range Versions {
+		if only != nil && !only[v.Name] {
+			continue
+		}
 		for _, cat := range Categories {
 			anns, err := rn.Run(v.V, []string{cat}, nil, cur, prev, idx)
 			if err != nil {
@@ -288,7 +334,9 @@ func EvalPair(rn *Runner, cur, prev *Compiled, checkExcept bool) *PairEval {
 	}
 	// constant prefix: the model's well-formedness / kind-consistency checks (a compiled image
 	// always passes them)
-	pe.Out = "wf=1|kinds=1|" + strings.Join(parts, "|")
+	if only == nil {
+		pe.Out = "wf=1|kinds=1|" + strings.Join(parts, "|")
+	}
 	return pe
 }
 
